@@ -6,6 +6,7 @@ from props import PROPS
 HERE = os.path.dirname(os.path.abspath(__file__))
 
 LEVEL = {
+    "C22": ("Kernel-level only: the arithmetic that turns count filters into fold-size limits (get_max_fold_count_limit / get_min_fold_count_limit, real code) is sound for every argument value and every count: no count above the max limit can pass the filters, and truncating at the min limit never changes the filters' verdict. How and when the limits are applied inside compute_fold is not claimed.", "5 C22"),
     "C06": ("Bounded model checking of the repository's generic candidate algebra (monomorphised at a heap-free integer/null value type): for every ordered pair of candidate shapes the solver decides, for all 64-bit endpoints, elements and probe values, that membership after intersect/normalize/exclude is exactly the set-theoretic one. Bounded (Multiple <= 2/3, integer endpoints), hence model_checking and not proof.", "5 C06"),
     "C07": ("Bounded model checking of the real filter operator kernels against a reference written from the operator documentation: for each pair of operand shapes CBMC decides every operator's result for all payload values (2^128 integer pairs, all finite floats, all ASCII strings up to the length bound).", "5 C07"),
     "C08": ("Bounded model checking of PartialEq/PartialOrd for FieldValue: reflexive/symmetric/transitive equality, total antisymmetric transitive order, agreement with numeric order, for all payloads of every triple of shapes within the size bound.", "5 C08"),
@@ -31,7 +32,6 @@ NA = {
     "C19": "schema text -> pest parser -> HashMap-based validation; out of reach like C10",
     "C20": "the introspection adapter is exercised by pipeline runs over a parsed Schema",
     "C21": "observable only at the adapter boundary of a pipeline run",
-    "C22": "the fold-count limit functions read arguments from a BTreeMap behind the query carrier and collect_fold_elements owns DataContexts: each >7 min for one operator (measured); only usize_from_field_value is reachable and is decided under C09",
     "C23": "relations between two pipeline runs; the operator-level relations in the statement ('=' vs one_of singleton, a filter and its negation are complements) are decided inside C07",
     "C24": "thread-safety: Kani models atomics sequentially and has no threads; Send/Sync is a type check, not a solver query",
     "C25": "the invariant checker drives adapters through schema-derived pipelines",
